@@ -3,6 +3,7 @@ package main
 import (
 	"go/token"
 	"go/types"
+	"sort"
 	"strings"
 
 	"golang.org/x/tools/go/ssa"
@@ -1226,5 +1227,143 @@ func c16WrongErrorReturned(c *Ctx, rule string) {
 	}
 	if bad == 0 {
 		c.okRows(rule, "repo", 0, n, "none of the %d returns inside an error's failure branch hands back a different error that is known nil there", n)
+	}
+}
+
+// c16SharedManglersStateless: a mangler kept in a package-level variable is used by every Decode call of the
+// process (decoders run concurrently: one per watched file, plus re-decodes), so none of its methods may write
+// state reachable from the receiver (a memo map filled from Mangle/Unmangle is an unsynchronised map write: the
+// runtime kills the process with "concurrent map writes").
+func c16SharedManglersStateless(c *Ctx, rule string) {
+	w := c.W
+	mi := w.named("transform", "Mangler")
+	if !c.need(mi != nil, "transform.Mangler") {
+		return
+	}
+	iface, _ := mi.Underlying().(*types.Interface)
+	if !c.need(iface != nil, "transform.Mangler interface") {
+		return
+	}
+	fromRecv := func(f *ssa.Function, v ssa.Value) bool {
+		if len(f.Params) == 0 {
+			return false
+		}
+		recv := ssa.Value(f.Params[0])
+		seen := map[ssa.Value]bool{}
+		var walk func(v ssa.Value) bool
+		walk = func(v ssa.Value) bool {
+			if v == recv {
+				return true
+			}
+			if seen[v] {
+				return false
+			}
+			seen[v] = true
+			switch x := v.(type) {
+			case *ssa.FieldAddr:
+				return walk(x.X)
+			case *ssa.Field:
+				return walk(x.X)
+			case *ssa.IndexAddr:
+				return walk(x.X)
+			case *ssa.Index:
+				return walk(x.X)
+			case *ssa.Lookup:
+				return walk(x.X)
+			case *ssa.UnOp:
+				return x.Op == token.MUL && walk(x.X)
+			case *ssa.Slice:
+				return walk(x.X)
+			case *ssa.Phi:
+				for _, e := range x.Edges {
+					if walk(e) {
+						return true
+					}
+				}
+			}
+			return false
+		}
+		return walk(v)
+	}
+	n := 0
+	seenT := map[*types.Named]bool{}
+	for _, p := range w.Pkgs {
+		sp := w.SSA[p.PkgPath]
+		names := make([]string, 0, len(sp.Members))
+		for nm := range sp.Members {
+			names = append(names, nm)
+		}
+		sort.Strings(names)
+		for _, nm := range names {
+			g, ok := sp.Members[nm].(*ssa.Global)
+			if !ok {
+				continue
+			}
+			t := g.Type().(*types.Pointer).Elem()
+			if !types.Implements(t, iface) {
+				continue
+			}
+			base := t
+			if pt, ok := base.(*types.Pointer); ok {
+				base = pt.Elem()
+			}
+			named, ok := base.(*types.Named)
+			if !ok {
+				continue
+			}
+			named = named.Origin()
+			n++
+			gname := p.PkgPath[len(modPath):] + "." + nm
+			bad := false
+			for k := 0; k < named.NumMethods(); k++ {
+				f := w.Prog.FuncValue(named.Method(k))
+				if f == nil || f.Blocks == nil {
+					continue
+				}
+				if !seenT[named] {
+					c.analysed(relName(f))
+				}
+				// writes made while a mutex of the receiver is held are synchronised
+				locked := func(at ssa.Instruction) bool {
+					for _, j := range allInstrs(f) {
+						lc, ok := j.(*ssa.Call)
+						if !ok || len(lc.Call.Args) == 0 {
+							continue
+						}
+						if nm := calleeFullName(lc); nm != "(*sync.Mutex).Lock" && nm != "(*sync.RWMutex).Lock" {
+							continue
+						}
+						if fromRecv(f, lc.Call.Args[0]) && domI(lc, at) {
+							return true
+						}
+					}
+					return false
+				}
+				for _, i := range allInstrs(f) {
+					if locked(i) {
+						continue
+					}
+					switch x := i.(type) {
+					case *ssa.MapUpdate:
+						if fromRecv(f, x.Map) {
+							bad = true
+							c.bad(rule, gname+"#"+f.Name(), x.Pos(), "%s writes a map reachable from its receiver, and one instance is shared by every decode of the process through the package-level variable %s: concurrent decodes die with 'concurrent map writes'", relName(f), nm)
+						}
+					case *ssa.Store:
+						if _, isAlloc := x.Addr.(*ssa.Alloc); !isAlloc && fromRecv(f, x.Addr) {
+							bad = true
+							c.bad(rule, gname+"#"+f.Name(), x.Pos(), "%s stores into state reachable from its receiver, and one instance is shared by every decode of the process through the package-level variable %s (data race between concurrent decodes)", relName(f), nm)
+						}
+					}
+				}
+			}
+			seenT[named] = true
+			if !bad {
+				c.ok(rule, gname, g.Pos(), "no method of "+named.Obj().Name()+" writes state reachable from its receiver (the instance is shared process-wide)")
+			}
+		}
+	}
+	if n == 0 {
+		c.okTrivial(rule, "repo", token.NoPos, "no mangler is kept in a package-level variable")
 	}
 }
